@@ -28,7 +28,7 @@ GEN = [
     ('C14GenProbes', T.tr_probes),
     ('C14GenLine', T.tr_line),
 ]
-DYN_LEVELS = [['C14_TieGeom', 'C14_TieSplit', 'C14_TieProbes', 'C14_TieLine'], ['C14_TieFinder']]
+DYN_LEVELS = [['C14_TieGeom', 'C14_TieSplit', 'C14_TieProbes', 'C14_TieLine'], ['C14_TieFinder'], ['C14_TieQuad']]
 
 
 def regenerate(ctx):
@@ -90,7 +90,7 @@ def run(ctx):
     # meanwhile, on the real implementation (no Coq needed)
     coll = O.Collector()
     for stage in (lambda: O.correspond(ctx, facts, coll), lambda: O.search_finders(ctx), lambda: O.search_probes(ctx),
-                  lambda: O.search_probes_general(ctx)):
+                  lambda: O.search_probes_general(ctx), lambda: O.search_probes_restricted(ctx)):
         try:
             stage()
         except Exception as e:      # noqa: BLE001 - a crash of one stage must not hide what the others find
